@@ -426,7 +426,18 @@ fn check_crate<T: Jetty<F = f64> + Copy>(tname: &str, ctx: &Ctx, shard: usize, n
         }
         let (swaps, seq) = pivot_path(&re);
         let a: Mats<T> = make_matrix(&mut rng, &re, &b, &shape, false, scale);
-        let rhs: Mats<T> = make_vector(&mut rng, n, &b, &shape);
+        let mut rhs: Mats<T> = make_vector(&mut rng, n, &b, &shape);
+        // one case in eight: a right-hand side whose real parts are all exactly zero while its derivative
+        // parts are not (implicit differentiation at a converged root)
+        let zero_rhs = ci % 8 == 3;
+        if zero_rhs {
+            for i in 0..n {
+                let mut sl = parts(&rhs.vals[i][0], &shape);
+                sl[0] = 0.0;
+                rhs.vals[i][0] = build_all::<T>(&shape, &sl);
+                rhs.jets[i][0] = Jet::from_slots(&b, &sl);
+            }
+        }
         // memory layout of the input array: row-major, column-major, non-contiguous (every second
         // column of a wider array) -- the routines index logically, so the answer must not change
         let layout = ci % 3;
@@ -767,7 +778,16 @@ fn check_nalgebra<T: Jetty<F = f64> + RealField>(tname: &str, ctx: &Ctx, shard: 
                                 check_eigen(&mut acc, &format!("nalgebra symmetric_eigen on {}", tname), format!("nalgebra-eigen:{}", tname), K4_SIG, K4_BAND, &s.jets, &lj, &vj, &b, tol, u, &ecase);
                             }
                         }
-                        _ => acc.violate(if sparse { K6_SIG.to_string() } else { format!("nalgebra-eigen:{}:nonfinite", tname) }, format!("nalgebra symmetric_eigen on {} (n={}{}) returned a non-finite part", tname, n, if sparse { ", zero off-diagonal real parts" } else { "" }), ecase()),
+                        _ => {
+                            // finding K6 produces non-finite *derivative* parts (sqrt of a dual whose real part is 0)
+                            // while every real part stays finite; a non-finite real part is something else
+                            let real_finite = e.eigenvalues.iter().all(|x| parts(x, &shape)[0].is_finite()) && e.eigenvectors.iter().all(|x| parts(x, &shape)[0].is_finite());
+                            acc.violate(
+                                if sparse && real_finite { K6_SIG.to_string() } else { format!("nalgebra-eigen:{}:nonfinite{}", tname, if real_finite { "" } else { "-real-part" }) },
+                                format!("nalgebra symmetric_eigen on {} (n={}{}) returned a non-finite {}", tname, n, if sparse { ", zero off-diagonal real parts" } else { "" }, if real_finite { "derivative part" } else { "real part" }),
+                                ecase(),
+                            )
+                        }
                     }
                 }
                 Err(m) => acc.violate(format!("nalgebra-eigen:{}:panic", tname), format!("symmetric_eigen panicked: {}", m), ecase()),
